@@ -8,9 +8,12 @@ NA = {}
 exec(open(os.path.join(ROOT, "manifest_table.py")).read())
 m = {"version": 1, "setup_cmd": "./setup.sh",
      "hooks": {"guard": "SEMANTIVA_VERIF", "enable": "no hooks: contracts are sidecar files under /verif/specs; /repo is read, never instrumented",
-               "baseline_off_cmd": BASE, "source_commits": FIX_COMMITS, "add_only": True},
+               "baseline_off_cmd": BASE, "source_commits": [], "add_only": True},
      "engines": [{"name": "pyvc", "path": "pyvc/", "serves_properties": sorted(CHECKS),
                   "kind_free_text": "VC generator: symbolic execution of the AST of the real /repo functions under sidecar contracts, discharged by z3 5.1 (cvc5 for z3's unknowns)"}],
+     "notes": ("No hook or instrumentation commits exist in /repo (hooks.source_commits is empty). The unguarded defect repairs are the "
+               "'fix:' commits " + ", ".join(FIX_COMMITS) + " - one per defect, each recorded as 'fixed:' in known_findings.jsonl; "
+               "open known findings: C08-KF1, C18-KF1, C18-KF2. Evidence files are rewritten by every run; run_all.sh regenerates them on the unchanged tree."),
      "checks": [], "not_applicable": []}
 for i in ids:
     if i in CHECKS:
